@@ -54,15 +54,32 @@ SPECIAL = [
     'c1ccc2c1CCCc1cccc1-2', 'c1ccc-2c1OCc1cccc12', 'c1cccc1-c1cccc1', 'c1ccc2c1CCc1cccc1=2', 'c1ccc=2c1CCc1cccc12',
     'c1ccc2c1CCc1cccc12', 'c1ccc2c1CCc1cccc1:2', 'c1cc2cccc2c1', 'c1cc-2cccc-2c1', 'c1cc2cccc-2c1', 'c1cc-2cccc2c1',
     'c1ccccc1-1', 'c1cc-1', 'c1ccc-1', 'c-1ccc1', 'c1ccccc-1', 'c-1ccccc1', 'c1ccccc=1', 'c=1ccccc1', 'c:1ccccc:1',
+    # multivalent halogens (allowed by the hypervalent / relaxed table) at the head of a branch, inside chains and rings
+    'c1ccc(Cl(=O)(=O)=O)cc1', 'CC(Cl(=O)=O)C', 'C(Br(F)(F)F)C', 'OC(Cl=O)C', 'C1CC(Cl1)C', 'C1CC(Br1)C', 'CC(I(C)C)C',
+    'C(Cl(C)C)(Br(C)C)C', 'CCl(C)C', 'C(ClC)C', 'C(BrCC)C', 'C(IC)C', 'C(Cl=O)F', 'FC(Cl(F)F)Br(F)F', 'C(Cl)(Br(=O)=O)C',
+    'OCl(=O)(=O)=O', 'C(Br1CCC1)C', 'N(Cl(C)C)C', 'C(=Cl(C)C)C', 'C(#ClC)C',
+    # bracket aromatic atoms without H (isotope labels): same pi demand as the bare atom
+    'c1cc[15n]cc1', 'c1c[15n]cc[15n]1', 'c1cc[15n]c1C', '[15n]1ccccc1', 'c1cc[14c]cc1', '[13c]1[13c][13c][13c][13c][13c]1',
+    'c1cc[15n]c2ccccc12', 'c1c[15n]c[15n]c1', 'c1cc[15nH]c1', 'C[15n]1cccc1', 'c1cc[17o]c1', 'c1cc[33s]c1', 'c1cc[31p]cc1',
+    'c1cc[15n+](C)cc1', 'c1cc[15n+]([O-])cc1', '[15n]1c[15n]c[15n]c1', 'c1c[15n]c2c(c1)cc[15n]2C', 'c1cc[15n]c1',
     'c:1ccccc1', 'C1=CC=CC=C1', 'C:1:C:C:C:C:C1', 'C1:C:C:C:C:C:1', 'c1ccc(-c2ccccc2)cc1', 'c1ccc(cc1)=c1ccccc1',
 ]
 
 
 def long_chain_cases():
+    """ring spans / branch lengths on both sides of every index-width boundary (16, 16^2) and up to the documented
+    limit 16^3, in several shapes (the width of the index is decided in one place for rings and one for branches;
+    a branch that starts with a bond symbol, a ring bond of order 2, a branch inside a ring)"""
     out = []
-    for n in (15, 16, 17, 20, 255, 256, 257, 300):
-        out.append('C1' + 'C' * n + '1')          # ring span needing 1, 2 index symbols
-        out.append('C(' + 'C' * n + ')F')         # branch length needing 1, 2 index symbols
+    for n in (14, 15, 16, 17, 18, 20, 254, 255, 256, 257, 258, 300, 4094, 4095, 4096):
+        out.append('C1' + 'C' * n + '1')          # ring index n - 1
+        out.append('C(' + 'C' * n + ')F')         # branch of n symbols
+        out.append('S(=C' + 'C' * (n - 1) + ')C')  # branch of n symbols that starts with a bond symbol
+        out.append('C=1' + 'C' * n + '1')         # double ring bond
+        if n < 1000:
+            out.append('N(' + 'C' * (n - 1) + '=O)C')
+            out.append('C1' + 'C' * (n - 3) + '(CF)C1')
+            out.append('OC1' + 'C' * n + '1N')
     return out
 
 
@@ -159,10 +176,14 @@ def _work(job):
                              % ([t for t, _ in res[:1 + nresp]],))]))
         for t, r in res:
             for cl, d in r:
-                if cl.startswith(pid + ':') and len(bad) < 12:
+                if cl.startswith(pid + ':'):
+                    rab = ring_after_branch(t)
+                    # capped per (clause, input class) so that a recorded class can never crowd out a new violation
+                    if sum(1 for b in bad if b['clause'] == cl and b['features']['ring_after_branch'] == rab) >= 3:
+                        continue
                     bad.append({'clause': cl, 'detail': d, 'input': {'smiles': t, 'table': table if isinstance(table, str)
                                                                       else 'relaxed'},
-                                'features': {'ring_after_branch': ring_after_branch(t)}})
+                                'features': {'ring_after_branch': rab}})
     return n, len(nt), bad
 
 
